@@ -3,6 +3,7 @@ package rules
 import (
 	"go/ast"
 	"go/types"
+	"strings"
 
 	"verif/internal/flow"
 )
@@ -263,6 +264,7 @@ func c14Pairing(e *c14env) {
 	// any other use of the two variables
 	pm := parentMap(f.Body)
 	var badUse ast.Node
+	var unknownUse *ast.CallExpr
 	why := ""
 	ast.Inspect(f.Body, func(n ast.Node) bool {
 		id, ok := n.(*ast.Ident)
@@ -282,6 +284,18 @@ func c14Pairing(e *c14env) {
 		case *ast.CallExpr:
 			if c14isBuiltin(f, p, "len", "cap") {
 				return true
+			}
+			if fo, _ := f.Callee(p).(*types.Func); fo != nil && fo.Pkg() != nil {
+				switch pp := fo.Pkg().Path(); {
+				case pp == "fmt" || pp == "log" || strings.HasSuffix(pp, "/logger"):
+					return true // read-only consumers (formatting, logging)
+				case pp == "sort" || pp == "slices" || pp == "math/rand":
+				default:
+					if unknownUse == nil {
+						unknownUse = p
+					}
+					return true
+				}
 			}
 			badUse, why = p, "is handed to "+f.Render(p.Fun)+" on its own"
 		case *ast.AssignStmt:
@@ -306,6 +320,10 @@ func c14Pairing(e *c14env) {
 		}
 		c.Violate("R-C14-5", cons+"|filters and QoS stay paired", pos(c, badUse),
 			"one of the two parallel slices (filters, QoS) "+why+" after/outside the loop that fills both: element i of one no longer belongs to element i of the other, so a resumed persistent session is re-subscribed with filters paired with each other's QoS")
+		return
+	}
+	if unknownUse != nil {
+		c.Undecide("R-C14-5", cons+"|filters and QoS stay paired", pos(c, unknownUse), "one of the two slices is handed to "+f.Render(unknownUse.Fun)+": cannot decide whether it reorders or changes it")
 		return
 	}
 	// pairing of the fills
